@@ -411,6 +411,42 @@ func runSeq(c *mon.Case) {
 			c.NonTrivial(opName, gen.Itoa(frame), gen.Itoa(code), rows.Key())
 		}
 	}
+	if op != 0 && code >= 0 && code <= 2 && r.Chance(0.08) {
+		// a sequence holding a letter that is no nucleotide is refused, corrected in place, and translated: the
+		// property holds for the sequence as it is at the time of the call
+		i, f0 := r.Intn(len(rows)), r0(frame)
+		if j := r.Intn(len(rows[i].Seq)); len(rows[i].Seq) >= f0+3 {
+			orig := rows[i].Seq[j]
+			bad := rows.Clone()
+			b := []byte(bad[i].Seq)
+			b[j] = r.Pick("EQLFPeq")
+			bad[i].Seq = string(b)
+			sb := h.MkSeqBag(bad, align.NUCLEOTIDS)
+			sq, _ := sb.Sequence(i)
+			_, e1 := sq.Translate(f0, code)
+			sb.DetectAlphabet()
+			if err := sb.SetSequenceChar(i, j, orig); err != nil {
+				panic("harness: " + err.Error())
+			}
+			tr, e2 := sq.Translate(f0, code)
+			want := oracleTranslate(rows[i].Seq, f0, code)
+			if e2 != nil || tr.Sequence() != want {
+				c.Failf("Sequence.Translate:after-in-place-correction", "sequence %q held %q at position %d (translation refused: %v), was corrected in place to %q: Translate(frame=%d, code=%d) gives %v / error %v, expected %q", bad[i].Seq, b[j], j, e1, rows[i].Seq, f0, code, seqOf(tr), e2, want)
+				return
+			}
+			c.Count(fmt.Sprintf("outcome:translated-after-in-place-correction:first-call-refused=%v", e1 != nil))
+			if err := sb.Translate(frame, code); err == nil {
+				if exp, empty := expectedTranslation(rows, frame, code); !empty {
+					cmpRows(c, "SeqBag.Translate", h.Snap(sb), exp, func() string {
+						return fmt.Sprintf("SeqBag.Translate(frame=%d, code=%d) after an in-place correction of row %d of %s", frame, code, i, h.Show(rows))
+					})
+				}
+			} else if _, empty := expectedTranslation(rows, frame, code); !empty {
+				c.Failf("SeqBag.Translate:after-in-place-correction", "rows %s (row %d corrected in place): %v", h.Show(rows), i, err)
+			}
+			return
+		}
+	}
 	switch op {
 	case 0:
 		s := rows[0].Seq
@@ -916,4 +952,18 @@ func main() {
 		{Name: "concurrent", Quick: 64, Thorough: 1200, Race: true, Run: func(c *mon.Case) { conc.Run(c, "translate") }},
 		{Name: "cli", Quick: 300, Thorough: 3000, Serial: true, Run: runCli},
 	})
+}
+
+func r0(frame int) int {
+	if frame < 0 {
+		return 0
+	}
+	return frame
+}
+
+func seqOf(s align.Sequence) string {
+	if s == nil {
+		return "<nil>"
+	}
+	return s.Sequence()
 }
